@@ -487,7 +487,7 @@ AREA_SECTIONS = {"subregions", "protoclusters", "candidates", "regions"}
 NUMBER_KEYS = {"protocluster_number", "candidate_cluster_number", "subregion_number", "region_number", "protoclusters",
                "candidate_cluster_numbers", "subregion_numbers"}
 # qualifiers of an area that are copied from its members, so they follow when members swap numbers
-MEMBER_KEYS = NUMBER_KEYS | {"product", "detection_rules", "rules", "<row>"}
+MEMBER_KEYS = NUMBER_KEYS | {"product", "detection_rules", "rules", "contig_edge", "<row>"}
 SEQUENCE_KEYS = {"leader_sequence", "core_sequence", "tail_sequence", "SMILES"}
 ROUTES = ("gb", "json", "results")
 
@@ -496,11 +496,20 @@ def _route_clause(clause: str, name: str) -> bool:
     return any(clause == f"{route}_{name}" for route in ROUTES)
 
 
+def _same_coordinates(before: str, after: str) -> bool:
+    import re
+    pattern = r":(None|-?1|0)(?=[,}])"
+    return re.sub(pattern, "", before) == re.sub(pattern, "", after)
+
+
 def _numbering_failure(clause: str, detail: dict, kinds: list, any_key: bool = False) -> bool:
     """ the failure is confined to numbers / member-derived qualifiers of area features, or to the order of
         the genes when genes are the tied kind """
     area_kinds = [kind for kind in kinds if kind != "CDS"]
     if _route_clause(clause, "features") and area_kinds:
+        if detail.get("type") in AREA_TYPES and detail.get("key") == "<location>" and not any_key:
+            # tied members differing in strand only: the hull of a candidate/region follows the swapped member
+            return _same_coordinates(*detail["values"])
         return detail.get("type") in AREA_TYPES and (any_key or detail.get("key") in MEMBER_KEYS)
     if _route_clause(clause, "structure"):
         if detail.get("section") == "cds_order":
@@ -508,8 +517,12 @@ def _numbering_failure(clause: str, detail: dict, kinds: list, any_key: bool = F
         return bool(area_kinds) and detail.get("section") in AREA_SECTIONS
     if clause in ("gb_fixed_point", "json_fixed_point", "results_fixed_point"):
         return "CDS" in kinds       # same features, emitted in another order
-    if any_key and _route_clause(clause, "secmet_features"):
-        return set(detail.get("classes_differing") or ["?"]) <= AREA_CLASSES
+    if _route_clause(clause, "secmet_features") and area_kinds:
+        if not set(detail.get("classes_differing") or ["?"]) <= AREA_CLASSES:
+            return False
+        # ties: hulls that follow a swapped member of another strand; contradictions: anything about the areas
+        return any_key or (len(detail["only_before"]) == len(detail["only_after"]) and all(
+            _same_coordinates(one[3], two[3]) for one, two in zip(detail["only_before"], detail["only_after"])))
     return False
 
 
@@ -607,10 +620,10 @@ def sig_long_unbroken_value(sub, spec, clause, detail) -> bool:
                    and " " not in item["first"] and item["second"].replace(" ", "") == item["first"]
                    for item in detail["diff"])
     if clause == "gb_reload_total":
-        # since the core's end is computed from len(core), a core that grew by a blank can run past the gene
+        # the section borders are computed from len(leader) and len(core): grown by blanks they can run past the gene
         return (detail.get("exception") == "ValueError" and "get_sub_location_from_protein_coordinates" in
                 detail.get("where", "") and any(
-                    g.get("prepeptide") and g["prepeptide"].get("tail") and max(
+                    g.get("prepeptide") and max(
                         len(g["prepeptide"]["core"]), len(g["prepeptide"].get("leader") or "")) >= rec.LONG_VALUE
                     for g in spec["genes"]))
     if clause != "gb_features":
@@ -736,6 +749,6 @@ def run(ctx) -> None:
     shards = ctx.pick(8, 16)
     ctx.extra["generated_spec_profile"] = _generator_profile(ctx.pick(150, 1500), ctx.seed)
     ctx.extra["bounds"] = {"record_length": [300, 5000], "genes": [1, 8], "protoclusters": [0, 5], "subregions": [0, 3]}
-    ctx.hyp("genbank", genbank_specs(), max_examples=ctx.pick(700, 36000), shards=shards)
-    ctx.hyp("json", rec.record_specs(), max_examples=ctx.pick(500, 24000), shards=shards)
-    ctx.hyp("results", results_specs(), max_examples=ctx.pick(300, 12000), shards=shards)
+    ctx.hyp("genbank", genbank_specs(), max_examples=ctx.pick(700, 30000), shards=shards)
+    ctx.hyp("json", rec.record_specs(), max_examples=ctx.pick(500, 20000), shards=shards)
+    ctx.hyp("results", results_specs(), max_examples=ctx.pick(300, 10000), shards=shards)
